@@ -19,8 +19,8 @@ RULE = ("write_setting(id, v) then read_setting(id) for EVERY setting of ET (eco
         "prior register contents.  Values: for 1- and 2-byte types the multiples of the resolution over the whole "
         "encodable domain (thorough: ALL 65536 of them for one representative setting per type and configuration and 4096 spread "
         "values for every other setting; quick: all boundaries plus 128 spread values per setting and 2048 for the "
-        "representative ones), excluding values whose encoding is the type's "
-        "'no value' sentinel (Integer 65535, Long 0xFFFFFFFF: they read back as 0 - counted in the evidence); "
+        "representative ones), including the all-ones value, whose encoding is the reading's "
+        "'no value' sentinel (Integer 65535, Voltage/Current 6553.5, Long 0xFFFFFFFF read back as 0: listed known findings); "
         "boundary + seeded values for 4/6/8/12-byte types (timestamps 2000-2255, eco groups built from valid "
         "fields).  Every fourth case runs under benign faults (lost request / lost answer within the retry budget): a "
         "retried write must be the identical frame; some RTU/UDP cases run against a peer that appends 2-4 surplus bytes to "
@@ -119,11 +119,11 @@ def domain_value(cls, scale, j, rnd):
             return bounds[j] % n
         return (j * 40503 + rnd.randrange(n)) % n
     if cls == "Integer":
-        return pick(65535, [0, 1, 2, 255, 256, 32767, 32768, 65534, 65533, 127, 128, 1000])
+        return pick(65536, [0, 1, 2, 255, 256, 32767, 32768, 65534, 65533, 127, 128, 1000, 65535])
     if cls == "IntegerS":
         return pick(65536, [0, 1, 32767, 32768, 65535]) - 32768
     if cls in ("Voltage", "Current"):
-        raw = pick(65535, [0, 1, 2, 3, 6, 7, 9, 255, 256, 32767, 32768, 65534, 5, 57, 570, 571])
+        raw = pick(65536, [0, 1, 2, 3, 6, 7, 9, 255, 256, 32767, 32768, 65534, 5, 57, 570, 571, 65535])
         return raw / 10
     if cls == "CurrentS":
         raw = pick(65536, [0, 1, 32767, 32768, 65535, 32769, 3, 7]) - 32768
@@ -134,8 +134,8 @@ def domain_value(cls, scale, j, rnd):
     if cls in ("ByteH", "ByteL"):
         return pick(256, [0, 1, 127, 128, 255, 129]) - 128
     if cls == "Long":
-        b = [0, 1, 65535, 65536, 0x7FFFFFFF, 0x80000000, 0xFFFFFFFE, 0xFFFF0000]
-        return b[j] if j < len(b) else rnd.randrange(0xFFFFFFFF)
+        b = [0, 1, 65535, 65536, 0x7FFFFFFF, 0x80000000, 0xFFFFFFFE, 0xFFFF0000, 0xFFFFFFFF]
+        return b[j] if j < len(b) else rnd.randrange(0x100000000)
     if cls == "LongS":
         b = [0, 1, -1, 0x7FFFFFFF, -0x80000000]
         return b[j] if j < len(b) else rnd.randrange(-0x80000000, 0x80000000)
@@ -243,9 +243,10 @@ def run_case(case):
                 before = dict(dev.regs)
             old_word = prior[2:4]
             want = R.encode(cls, v, scale=getattr(st, "scale", None), old_word=old_word)
-            if cls in ("Integer",) and want == b"\xff\xff" or cls == "Long" and want == b"\xff\xff\xff\xff":
-                stats["skipped_sentinel"] += 1
-                continue
+            sentinel = (cls in ("Integer", "Voltage", "Current") and want == b"\xff\xff") or \
+                       (cls == "Long" and want == b"\xff\xff\xff\xff")
+            if sentinel:
+                stats["skipped_sentinel"] += 1   # (name kept for the evidence file: the value IS written and read back)
             nlog = len(dev.write_log)
             if case.get("benign"):
                 m = j % 3
@@ -309,7 +310,12 @@ def run_case(case):
                         f"bytes decode to {ref[bad[0]]!r}")
             else:
                 if got != v or isinstance(got, bool):
-                    add(f"C17:{cls}:readback", f"{what}: read_setting returned {got!r}")
+                    if sentinel and got == 0:
+                        # the all-ones word is the 'no value' sentinel of the reading: it cannot be told apart from 0
+                        add(f"C17:{cls}:readback:all-ones-reads-as-0", f"{what}: the write carried {want.hex()}, "
+                            f"read_setting returned {got!r}")
+                    else:
+                        add(f"C17:{cls}:readback", f"{what}: read_setting returned {got!r}")
 
     status, _ = C.run_world(world, main())
     if status != "ok":
